@@ -356,6 +356,53 @@ static int do_cz(char *args)
 	return 0;
 }
 
+/* Every object of the copied set is referenced by nobody but the harness (copied readers hold references to the ORIGINAL's file
+ * and compressor, not to the copies of them): releasing it once must run its destroy hook exactly once - a copy that inherited
+ * the original's reference count would stay alive for ever */
+static int g_destroy_calls;
+static void (*g_real_destroy)(sqfs_object_t *);
+
+static void counting_destroy(sqfs_object_t *o)
+{
+	g_destroy_calls += 1;
+	g_real_destroy(o);
+}
+
+static int drop_checked(void *obj, const char *what)
+{
+	sqfs_object_t *o = obj;
+
+	if (o == NULL)
+		return 0;
+	g_real_destroy = o->destroy;
+	g_destroy_calls = 0;
+	o->destroy = counting_destroy;
+	sqfs_drop(o);
+	if (g_destroy_calls != 1) {
+		printf("MISMATCH 0 drop: releasing the copy of the %s ran its destroy hook %d times (a copy starts with one reference of its own)\n", what, g_destroy_calls);
+		if (g_destroy_calls == 0)
+			o->destroy = g_real_destroy;
+		return -1;
+	}
+	return 0;
+}
+
+static int rset_close_copy(rset_t *r)
+{
+	int bad = 0;
+
+	bad |= drop_checked(r->mr, "meta reader");
+	bad |= drop_checked(r->dmr, "meta reader (directory table)");
+	bad |= drop_checked(r->xr, "xattr reader");
+	bad |= drop_checked(r->data, "data reader");
+	bad |= drop_checked(r->dr, "dir reader");
+	bad |= drop_checked(r->idtbl, "id table");
+	bad |= drop_checked(r->cmp, "compressor");
+	bad |= drop_checked(r->file, "file");
+	memset(r, 0, sizeof(*r));
+	return bad;
+}
+
 static int copy_set(rset_t *dst, const rset_t *src)
 {
 	memset(dst, 0, sizeof(*dst));
@@ -505,7 +552,8 @@ int main(int argc, char **argv)
 				rset_close(&O);
 				o_alive = 0;
 			} else if (rest[0] == 'c' && c_alive) {
-				rset_close(&C);
+				if (rset_close_copy(&C))
+					return 3;
 				c_alive = 0;
 			}
 			continue;
@@ -563,8 +611,8 @@ int main(int argc, char **argv)
 	fclose(f);
 	if (o_alive)
 		rset_close(&O);
-	if (c_alive)
-		rset_close(&C);
+	if (c_alive && rset_close_copy(&C))
+		return 3;
 	if (have_copy)
 		rset_close(&T);
 	for (int i = 0; i < npre; ++i)
